@@ -304,6 +304,59 @@ func (pkg *pkg) Add(call *call) (string, error) {
 	return "", nil
 }
 
+// localType returns a named type that is part of typ and is declared inside a function, or nil.
+func localType(typ types.Type, visited map[types.Type]bool) *types.Named {
+	if typ == nil || visited[typ] {
+		return nil
+	}
+	visited[typ] = true
+	switch t := typ.(type) {
+	case *types.Named:
+		if obj := t.Obj(); obj.Pkg() != nil && obj.Parent() != nil && obj.Parent() != obj.Pkg().Scope() {
+			return t
+		}
+		for i := 0; i < t.TypeArgs().Len(); i++ {
+			if local := localType(t.TypeArgs().At(i), visited); local != nil {
+				return local
+			}
+		}
+		return localType(t.Underlying(), visited)
+	case *types.Alias:
+		return localType(types.Unalias(t), visited)
+	case *types.Pointer:
+		return localType(t.Elem(), visited)
+	case *types.Slice:
+		return localType(t.Elem(), visited)
+	case *types.Array:
+		return localType(t.Elem(), visited)
+	case *types.Chan:
+		return localType(t.Elem(), visited)
+	case *types.Map:
+		if local := localType(t.Key(), visited); local != nil {
+			return local
+		}
+		return localType(t.Elem(), visited)
+	case *types.Struct:
+		for i := 0; i < t.NumFields(); i++ {
+			if local := localType(t.Field(i).Type(), visited); local != nil {
+				return local
+			}
+		}
+	case *types.Tuple:
+		for i := 0; i < t.Len(); i++ {
+			if local := localType(t.At(i).Type(), visited); local != nil {
+				return local
+			}
+		}
+	case *types.Signature:
+		if local := localType(t.Params(), visited); local != nil {
+			return local
+		}
+		return localType(t.Results(), visited)
+	}
+	return nil
+}
+
 // mentionsTypeParam returns whether a type parameter of a generic function or type is part of typ.
 func mentionsTypeParam(typ types.Type, visited map[types.Type]bool) bool {
 	if typ == nil || visited[typ] {
@@ -406,6 +459,12 @@ func (pkg *pkg) Generate() (bool, error) {
 				// Mark exactly the entry that is handed out, so that the loop makes progress
 				// even if the plugin marks another entry that these types are assignable to.
 				g.Generating(typs...)
+				for _, typ := range typs {
+					// A call on such a type can be served by a function for a type of the package that it is assignable to; its own function cannot be written.
+					if local := localType(typ, make(map[types.Type]bool)); local != nil {
+						return false, fmt.Errorf("Generator Error: %s: a function for the type %s cannot be generated: the type %s is declared inside a function and has no name outside of it", plugin.Name(), typ, local.Obj().Name())
+					}
+				}
 				if err := g.Generate(typs); err != nil {
 					return false, fmt.Errorf("Generator Error: %s:%v", plugin.Name(), err.Error())
 				}
